@@ -265,6 +265,12 @@ func c12Oracle(ex *c12Exec, expectBubble bool) []c12Finding {
 		}
 		switch e.Call {
 		case "BeginEdit":
+			// what the node is told about itself: New exactly when this edit created it
+			if e.Side == "T" && e.Source == e.Node && !e.Delete {
+				if w := ex.ss.Nodes[e.Node]; w.Created != e.New && (w.Parent != nil || e.New) {
+					add("audience", "new-flag-wrong@"+role(e.Node), fmt.Sprintf("node %s#%d was %s by this edit but is told BeginEdit with New=%v: %s", w.Side, w.ID, map[bool]string{true: "created", false: "found, not created,"}[w.Created], e.New, e))
+				}
+			}
 			if e.Err == "" {
 				stacks[e.Node] = append(stacks[e.Node], e)
 			}
